@@ -357,6 +357,9 @@ class MessageAssembler:
                 )
                 self.reset()
 
+            # This packet is the first one of a new message, whatever was received
+            # (or dropped) before it
+            self.packet_count = 1
             self.transaction_label = transaction_label
             self.signal_identifier = SignalIdentifier(pdu[1] & 0x3F)
             self.message_type = message_type
